@@ -237,7 +237,12 @@ fn gen_seed(r: &mut Rng, m: u128, len: usize) -> Vec<u128> {
     (0..len).map(|_| match r.below(8) { 0 => 0, 1 => 1, 2 => m - 1, 3 => m - 2, 4 => r.below(256) as u128, _ => r.next_u128() % m }).collect()
 }
 fn gen_nonce(r: &mut Rng) -> u64 {
-    match r.below(8) { 0 => 0, 1 => 1, 2 => u64::MAX, 3 => u64::MAX - 1, 4 => r.below(1 << 16), _ => r.next_u64() }
+    match r.below(10) {
+        0 => 0, 1 => 1, 2 => u64::MAX, 3 => u64::MAX - 1, 4 => r.below(1 << 16),
+        5 => 0xFFFF_FFFF_0000_0000u64.wrapping_add(r.below(4)),            // around the f64 modulus
+        6 => (1 + r.below(4)) * 4611624995532046337 - 1 + r.below(3),      // around multiples of the f62 modulus
+        _ => r.next_u64(),
+    }
 }
 fn gen_ints(r: &mut Rng, wide: bool) -> Op {
     let k = 1 + r.below(32);
@@ -661,9 +666,77 @@ fn falsify_h<B: Fld, H: ElementHasher<BaseField = B>>(name: &str, r: &mut Rng, n
     }
 }
 
+/// Boundary nonces (sensitivity stream): outputs for two different nonces must differ.  The reference coin of
+/// `shadow` calls the library's merge_with_int, so a nonce encoding that is not injective (e.g. the value/modulus
+/// split of the Rescue hashers off by one) is invisible to it; pairwise distinctness is the independent oracle.
+/// check_leading_zeros may coincide by chance, so the compared signature is draw_integers(8, 2^32, nonce) (256 bits)
+/// together with the next base-field draw.
+fn boundary_nonces() -> Vec<u64> {
+    let p64: u64 = 0xFFFF_FFFF_0000_0001;
+    let p62: u64 = 4611624995532046337;
+    let mut v = vec![0u64, 1, 2, p64 - 2, p64 - 1, p64, p64 + 1, p64 + 2, (1 << 32) - 1, 1 << 32, (1 << 32) + 1, 0xFFFF_FFFF_0000_0000,
+                     (1 << 62) - 1, 1 << 62, (1 << 63) - 1, 1 << 63, (1 << 63) + 1, u64::MAX - 1, u64::MAX];
+    for k in 1..=4u64 {
+        for d in [-1i64, 0, 1] {
+            v.push((k * p62).wrapping_add(d as u64));
+        }
+    }
+    v.sort();
+    v.dedup();
+    v
+}
+fn nonce_boundary_h<B: Fld, H: ElementHasher<BaseField = B>>(name: &str, r: &mut Rng, rep: &mut Report) {
+    let nonces = boundary_nonces();
+    for variant in 0..3 {
+        let seed = gen_seed(r, B::M, variant + 1);
+        let elems: Vec<B> = seed.iter().map(|&x| B::from_u128(x)).collect();
+        let data = H::hash(&r.bytes(5));
+        let mut sigs: Vec<(u64, Vec<usize>, u128, u32)> = Vec::new();
+        for &nonce in &nonces {
+            let mut coin = DefaultRandomCoin::<H>::new(&elems);
+            if variant >= 1 { coin.reseed(data); }
+            if variant == 2 { let _ = coin.draw::<B>(); }
+            let lz = coin.check_leading_zeros(nonce);
+            let ints = coin.draw_integers(8, 1usize << 32, nonce).unwrap_or_default();
+            let next = coin.draw::<B>().map(|e| e.int()).unwrap_or(u128::MAX);
+            rep.evals += 1;
+            if ints.len() != 8 || ints.iter().any(|&q| q >= 1usize << 32) {
+                rep.fail("draw_integers returned a wrong number of values", format!("{} {} nonce {:x}", name, B::NAME, nonce), "8 values < 2^32".into(), format!("{:x?}", ints));
+            }
+            sigs.push((nonce, ints, next, lz));
+        }
+        for i in 0..sigs.len() {
+            for j in i + 1..sigs.len() {
+                if sigs[i].1 == sigs[j].1 || sigs[i].2 == sigs[j].2 {
+                    rep.fail("outputs insensitive to the nonce: draw_integers / the next draw agree for two different nonces",
+                             format!("{} {} seed={} variant={} nonces {:x} and {:x}", name, B::NAME, hexlist128(&seed), variant, sigs[i].0, sigs[j].0),
+                             "different integers and a different next element".into(),
+                             format!("integers {:x?} / {:x?}, next {:x} / {:x}, check_leading_zeros {} / {}", sigs[i].1, sigs[j].1, sigs[i].2, sigs[j].2, sigs[i].3, sigs[j].3));
+                }
+            }
+        }
+    }
+}
+fn nonce_boundary(r: &mut Rng, rep: &mut Report) {
+    nonce_boundary_h::<f64::BaseElement, Blake3_192<f64::BaseElement>>("Blake3_192", r, rep);
+    nonce_boundary_h::<f62::BaseElement, Blake3_192<f62::BaseElement>>("Blake3_192", r, rep);
+    nonce_boundary_h::<f128::BaseElement, Blake3_192<f128::BaseElement>>("Blake3_192", r, rep);
+    nonce_boundary_h::<f64::BaseElement, Blake3_256<f64::BaseElement>>("Blake3_256", r, rep);
+    nonce_boundary_h::<f62::BaseElement, Blake3_256<f62::BaseElement>>("Blake3_256", r, rep);
+    nonce_boundary_h::<f128::BaseElement, Blake3_256<f128::BaseElement>>("Blake3_256", r, rep);
+    nonce_boundary_h::<f64::BaseElement, Sha3_256<f64::BaseElement>>("Sha3_256", r, rep);
+    nonce_boundary_h::<f62::BaseElement, Sha3_256<f62::BaseElement>>("Sha3_256", r, rep);
+    nonce_boundary_h::<f128::BaseElement, Sha3_256<f128::BaseElement>>("Sha3_256", r, rep);
+    nonce_boundary_h::<f62::BaseElement, Rp62_248>("Rp62_248", r, rep);
+    nonce_boundary_h::<f64::BaseElement, Rp64_256>("Rp64_256", r, rep);
+    nonce_boundary_h::<f64::BaseElement, RpJive64_256>("RpJive64_256", r, rep);
+}
+
 fn falsify(seed: u64, n: usize) {
     let mut r = Rng::new(seed ^ 0xFA15_C19);
     let mut rep = Report { evals: 0, fails: 0 };
+    // boundary stream first: nonces 0, 1, p-1, p, p+1 (p = f64 and k*f62 moduli), 2^32, 2^62, 2^63, u64::MAX, all pairs
+    nonce_boundary(&mut r, &mut rep);
     let per = (n / 12).max(1);
     falsify_h::<f64::BaseElement, Blake3_192<f64::BaseElement>>("Blake3_192", &mut r, per, &mut rep);
     falsify_h::<f62::BaseElement, Blake3_192<f62::BaseElement>>("Blake3_192", &mut r, per, &mut rep);
